@@ -410,17 +410,28 @@ ALLOC_FNS = ("raw::alloc::inner::do_alloc", "raw::RawTableInner::new_uninitializ
 
 
 def _err_exit_blocks(body):
-    """blocks that put an Err into the return place."""
+    """blocks that put an Err into the return place (directly, or into a local that is then moved into the return place -
+    the return slot of a helper that was inlined into this body)."""
+    rets = {0}
+    changed = True
+    while changed:
+        changed = False
+        for i, k, s in body.stmts():
+            if s["k"] == "assign" and not s["p"].get("proj") and s["p"]["l"] in rets and s["rv"]["k"] == "use" \
+                    and s["rv"]["op"]["k"] in ("copy", "move") and not s["rv"]["op"]["p"].get("proj") and s["rv"]["op"]["p"]["l"] not in rets \
+                    and body.locals[s["rv"]["op"]["p"]["l"]]["ty"]["s"] == body.locals[0]["ty"]["s"]:
+                rets.add(s["rv"]["op"]["p"]["l"])
+                changed = True
     out = []
     for i in body.normal:
         bb = body.blocks[i]
         for s in bb["stmts"]:
-            if s["k"] == "assign" and s["p"]["l"] == 0 and not s["p"].get("proj"):
+            if s["k"] == "assign" and s["p"]["l"] in rets and not s["p"].get("proj"):
                 rv = s["rv"]
                 if rv["k"] == "aggregate" and rv.get("variant") == "Err":
                     out.append(i)
         t = bb["term"]
-        if t["k"] == "call" and t["dest"]["l"] == 0 and not t["dest"].get("proj"):
+        if t["k"] == "call" and t["dest"]["l"] in rets and not t["dest"].get("proj"):
             if t["f"].get("path") == "core::ops::try_trait::FromResidual::from_residual":
                 out.append(i)
     return out
